@@ -343,9 +343,9 @@ func init() {
 		Assumptions: []string{"reading D2: an invalid UTF-8 byte may come back as U+FFFD", "member order, whitespace and number formatting are not judged", "members starting with @ are JSON-LD keywords and are not judged"},
 		Bound: func(tier string) string {
 			if tier == "thorough" {
-				return "structure complete for levels 0/1/saturated; hostile strings: singles, prefixed and all 729 ordered pairs at 3 nesting positions; boundary-length strings in 11 string positions and an empty-but-non-nil neighbour next to every property"
+				return "structure complete for levels 0/1/saturated; hostile strings: singles, prefixed and all 729 ordered pairs at 3 nesting positions; boundary-length strings in 11 string positions and an empty-but-non-nil neighbour next to every property; families added after round 5: DESIGN.md 8.11"
 			}
-			return "structure complete for levels 0/1/saturated; hostile strings: singles and prefixed at 3 nesting positions, all 729 ordered pairs at top level; boundary-length strings in 11 string positions and an empty-but-non-nil neighbour next to every property"
+			return "structure complete for levels 0/1/saturated; hostile strings: singles and prefixed at 3 nesting positions, all 729 ordered pairs at top level; boundary-length strings in 11 string positions and an empty-but-non-nil neighbour next to every property; families added after round 5: DESIGN.md 8.11"
 		},
 		DeadlineQuick: 5 * time.Minute, DeadlineThorough: 40 * time.Minute,
 		Run: c02Run,
